@@ -10,3 +10,8 @@ int do_save(string f, int z) { return save_object(f, z); }
 int do_restore(string f, int nc) { return restore_object(f, nc); }
 string do_sv(mixed x) { return save_variable(x); }
 mixed do_rv(string s) { return restore_variable(s); }
+// the save text held in a variable and used twice: ({ pristine copy, holder after use, first restore, second restore })
+string gs;
+mixed *do_twice_local(mixed x) { string orig = save_variable(x); string s = save_variable(x); mixed a, b; a = restore_variable(s); b = restore_variable(s); return ({ orig, s, a, b }); }
+mixed *do_twice_global(mixed x) { string orig = save_variable(x); mixed a, b; gs = save_variable(x); a = restore_variable(gs); b = restore_variable(gs); return ({ orig, gs, a, b }); }
+mixed *do_twice_array(mixed x) { string orig = save_variable(x); mixed *h = ({ save_variable(x), 0 }); mixed a, b; h[1] = h[0]; a = restore_variable(h[0]); b = restore_variable(h[1]); return ({ orig, h[0], a, b }); }
